@@ -12,6 +12,8 @@ from . import tlc
 VERIF = os.path.dirname(os.path.dirname(os.path.abspath(__file__)))
 REPO = os.environ.get('VERIF_REPO', '/repo')
 GUARD = 'PYTENET_VERIF'
+# evidence / replay files go to /verif unless a mutant runner redirects them (tools/try_mutant_wt.sh)
+OUT = os.environ.get('VERIF_OUT', VERIF)
 
 
 class SpecError(Exception):
@@ -158,8 +160,8 @@ class Ctx:
                     self.known_hits.append(key)
                     print(f'KNOWN-FINDING: property={self.pid} {k.get("what", key)}', flush=True)
                 return
-        os.makedirs(os.path.join(VERIF, 'replays'), exist_ok=True)
-        path = os.path.join(VERIF, 'replays', f'{self.pid}-{digest([key, desc, replay_obj])}.json')
+        os.makedirs(os.path.join(OUT, 'replays'), exist_ok=True)
+        path = os.path.join(OUT, 'replays', f'{self.pid}-{digest([key, desc, replay_obj])}.json')
         with open(path, 'w') as f:
             json.dump(dict(property=self.pid, key=key, desc=desc, replay=replay_obj), f)
         self.violations.append((key, desc, path))
@@ -181,10 +183,11 @@ class Ctx:
         if self.exhaustive is not None:
             cov['exhaustive'] = self.exhaustive
         cov.update(self.notes)
+        cov['repo_root'] = REPO
         ev = dict(property_id=self.pid, tier=self.tier, seed=self.seed, level=self.level, coverage=cov,
                   assumptions=self.assumptions, wall_s=round(wall, 2), violations=len(self.violations))
-        os.makedirs(os.path.join(VERIF, 'evidence'), exist_ok=True)
-        with open(os.path.join(VERIF, 'evidence', f'{self.pid}.json'), 'w') as f:
+        os.makedirs(os.path.join(OUT, 'evidence'), exist_ok=True)
+        with open(os.path.join(OUT, 'evidence', f'{self.pid}.json'), 'w') as f:
             json.dump(ev, f, indent=1, default=str)
         shutil.rmtree(self.work, ignore_errors=True)
         self.log(f'done: {len(self.violations)} violation(s), {self.states} states, {self.traces} traces, '
